@@ -152,29 +152,27 @@ Theorem work_bound_off : forall maxdepth qmin v6 Smax Fmax adv w,
 Proof. exact work_bound_off_lemma. Qed.
 Print Assumptions work_bound_off.
 
-(* overbudget_is_servfail_not_cached — full statement:
-     if the request tree ends with a latched rejection, the client's reply is the policy SERVFAIL
-     built from the client's request (so an EDNS client gets the Extended DNS Error), and it is never
-     handed to the failure cache.
-   Proved without the EDE clause; the EDE clause holds on the cache-miss path and is REFUTED on the
-   cache-hit path (finding overbudget-servfail-without-ede, replayed on the Go code by the lab driver). *)
-Theorem overbudget_is_servfail_not_cached_partial : forall maxdepth qmin v6 Smax Fmax pol adv,
+(* overbudget_is_servfail_not_cached: if the request tree ends with a latched rejection, the client's
+   reply is the policy SERVFAIL built from the client's request (so an EDNS client gets the Extended
+   DNS Error), and it is never handed to the failure cache — on the cache-miss path and, since fix
+   ca465fd, on the cache-hit path as well.  (Before the fix the EDE clause was refuted on the hit path;
+   reverting the fix makes the lab report the violation again.) *)
+Theorem overbudget_is_servfail_not_cached : forall maxdepth qmin v6 Smax Fmax pol adv,
   let '(w', r) := run adv (client maxdepth qmin v6 Smax Fmax cx0) (fresh pol) in
-  latched w' -> exists e ede, r = ReplyWork e ede.
+  latched w' -> exists e, r = ReplyWork e true.
 Proof. exact overbudget_lemma. Qed.
-Print Assumptions overbudget_is_servfail_not_cached_partial.
+Print Assumptions overbudget_is_servfail_not_cached.
 
 Theorem overbudget_miss_path_carries_ede : forall maxdepth qmin v6 Smax Fmax nq c adv w e ede,
   snd (run adv (pipeline_miss maxdepth qmin v6 Smax Fmax nq c) w) = ReplyWork e ede -> ede = true.
 Proof. exact pipeline_miss_has_ede. Qed.
 Print Assumptions overbudget_miss_path_carries_ede.
 
-Theorem overbudget_reply_has_ede_refuted :
-  exists adv pol, p_mode pol = mode_enforce /\
-    let '(w', r) := run adv (client 30 5 false 1 1 cx0) (fresh pol) in
-    latched w' /\ r = ReplyWork (RLimit kind_internal 1) false.
-Proof. exact overbudget_ede_refuted_lemma. Qed.
-Print Assumptions overbudget_reply_has_ede_refuted.
+(* non-vacuity, and the former counterexample: the hit-path chase runs over an internal budget of 1 *)
+Example overbudget_hit_path_example :
+  let '(w', r) := run (fun _ => 1%nat) (client 30 5 false 1 1 cx0) (fresh witness_pol) in
+  latched w' /\ r = ReplyWork (RLimit kind_internal 1) true.
+Proof. exact overbudget_hit_path_example_lemma. Qed.
 
 (* shadow_equals_off: as functions of the adversary, the reply, the upstream exchanges and the
    sub-queries of one client query are identical with the firewall off and in shadow mode *)
